@@ -12,7 +12,7 @@ package haproxy
 //@ count reload      = (*instance).Reload, (utils.QueueFacade).Add
 
 //@ func (*instance).HAProxyUpdate
-//@   props C12 C02
+//@   props C12
 //@   ensures no-commit-on-error: result != nil ==> calls(Commit) == 0
 //@   ensures commit-on-success:  result == nil && old(i.config) != nil ==> calls(Commit) == 1
 //@   ensures nil-config:         old(i.config) == nil ==> result == nil && calls(Commit) == 0 && calls(writeConfig) == 0 && calls(reload) == 0
@@ -41,4 +41,124 @@ package haproxy
 //@   loop 1 invariant wf:   acmeWF(storages)
 //@   loop 1 invariant adds: 0 <= $idx(1) && $idx(1) <= len(last(BuildAdd)) && calls(QAdd) == $idx(1) && calls(QRemove) == 0 && calls(Leader) == 1 && last(Leader) && last(HasAcc) && calls(BuildAdd) == 1 && calls(BuildDel) == 0
 //@   loop 2 invariant dels: 0 <= $idx(2) && $idx(2) <= len(last(BuildDel)) && calls(QRemove) == $idx(2) && calls(QAdd) == len(last(BuildAdd)) && calls(Leader) == 1 && last(Leader) && last(HasAcc) && calls(BuildAdd) == 1 && calls(BuildDel) == 1
+//@ end
+
+// ---------------------------------------------------------------------------
+// C02 — runtime updates: decision logic
+
+//@ count Send     = (socket.HAProxySocket).Send
+//@ count FUpd     = (*dynUpdater).frontendUpdated
+//@ count BUpd     = (*dynUpdater).backendUpdated
+//@ count CfgChg   = (*dynUpdater).checkConfigChange
+//@ count Align    = (*dynUpdater).alignSlots
+//@ count RespOK   = cmdResponseOK
+//@ count ExecCmd  = (*dynUpdater).execCommand
+//@ count DeepEq   = reflect.DeepEqual
+//@ count CHP      = (*dynUpdater).checkHostPair
+//@ count CBP      = (*dynUpdater).checkBackendPair
+//@ count UpdCert  = (*dynUpdater).execUpdateCert
+
+// accepted answers of the runtime api
+//@ func cmdResponseOK
+//@   props C02
+//@   pure
+//@   ensures setserver: cmd == "set server" ==> result == (response == "" || hasPrefix(response, "IP changed from ") || hasPrefix(response, "no need to change "))
+//@   ensures commit:    cmd == "commit ssl cert" ==> result == contains(response, "Success")
+//@ end
+
+//@ func (*dynUpdater).execCommand
+//@   props C02
+//@   modifies heap
+//@   ensures sent:    calls(Send) == 1
+//@   ensures counted: d.cmdCnt == at(Send, d.cmdCnt) + len(cmd)
+//@   ensures result:  result.1 == last(Send).1 && (result.1 == nil ==> len(result.0) == len(cmd))
+//@ end
+
+// an endpoint is reported as disabled/enabled only if the exchange succeeded
+// and every non-empty answer is an accepted one
+//@ func (*dynUpdater).execDisableEndpoint
+//@   props C02
+//@   ensures once:   calls(ExecCmd) == 1
+//@   ensures ok:     result ==> last(ExecCmd).1 == nil && alltrue(RespOK)
+//@   loop 1 invariant seen: 0 <= $idx(1) && alltrue(RespOK) && calls(ExecCmd) == 1 && last(ExecCmd).1 == nil
+//@   at call execCommand#1 assert three: len($arg2) == 3
+//@ end
+
+//@ func (*dynUpdater).execEnableEndpoint
+//@   props C02
+//@   ensures once:   calls(ExecCmd) == 1
+//@   ensures ok:     result ==> last(ExecCmd).1 == nil && alltrue(RespOK)
+//@   loop 1 invariant seen: 0 <= $idx(1) && alltrue(RespOK) && calls(ExecCmd) == 1 && last(ExecCmd).1 == nil
+//@   at call execCommand#1 assert three: len($arg2) == 3
+//@   at call execCommand#1 assert drain: state == ((curEP.Weight > 0) ? "ready" : "drain")
+//@ end
+
+// anything but hosts/backends differing => reload; both scans must agree
+//@ func (*dynUpdater).checkConfigChange
+//@   props C02
+//@   ensures global:    result ==> old(d.config.globalOld) == nil || deepEq(iface(old(d.config.globalOld)), iface(old(d.config.global)))
+//@   ensures tcpback:   result ==> !old(d.config.tcpbackends.Changed())
+//@   ensures tcpsvc:    result ==> !old(d.config.tcpservices.Changed())
+//@   ensures frontend:  result ==> !old(d.config.frontend.Changed())
+//@   ensures userlists: result ==> !old(d.config.userlists.Changed())
+//@   ensures hosts:     result ==> calls(FUpd) == 1 && last(FUpd)
+//@   ensures backends:  result ==> calls(BUpd) == 1 && last(BUpd)
+//@ end
+
+//@ func (*dynUpdater).update
+//@   props C02 C11
+//@   ensures committed: result ==> old(d.config.hasCommittedData())
+//@   ensures checked:   result ==> calls(CfgChg) == 1 && last(CfgChg)
+//@   ensures aligned:   !result ==> calls(Align) == 1
+//@   ensures noalign:   result ==> calls(Align) == 0
+//@ end
+
+// a host pair is accepted only if nothing but the server certificate differs,
+// and then the certificate is updated through the runtime api
+//@ func (*dynUpdater).checkHostPair
+//@   props C02
+//@   ensures same:  result ==> calls(DeepEq) >= 1 && first(DeepEq)
+//@   ensures cert:  result && old(pair.cur.TLS.HasTLS()) && old(pair.old.TLS.TLSHash != pair.cur.TLS.TLSHash) && old(pair.old.TLS.TLSFilename == pair.cur.TLS.TLSFilename)
+//@       ==> calls(UpdCert) == 1 && last(UpdCert)
+//@   ensures nocert: old(pair.old.TLS.TLSHash == pair.cur.TLS.TLSHash) ==> calls(UpdCert) == 0
+//@   at call DeepEqual#1 assert masked: oldHostCopy.TLS.TLSFilename == pair.old.TLS.TLSFilename && oldHostCopy.Hostname == pair.old.Hostname
+//@       && oldHostCopy.Paths == pair.old.Paths && oldHostCopy.TLS.CAFilename == pair.old.TLS.CAFilename && oldHostCopy.TLS.CAHash == pair.old.TLS.CAHash
+//@       && oldHostCopy.TLS.CRLFilename == pair.old.TLS.CRLFilename && oldHostCopy.TLS.CRLHash == pair.old.TLS.CRLHash
+//@       && oldHostCopy.TLS.TLSCommonName == pair.cur.TLS.TLSCommonName && oldHostCopy.TLS.TLSHash == pair.cur.TLS.TLSHash
+//@ end
+
+// a backend pair: never accepted when endpoints were added beyond the slots,
+// nor when anything but ID/Dynamic/Endpoints differs
+//@ func (*dynUpdater).checkBackendPair
+//@   props C02 C11
+//@   ensures grow:  old(len(pair.old.Endpoints) < len(pair.cur.Endpoints)) ==> !result
+//@   ensures same:  result ==> calls(DeepEq) >= 1 && first(DeepEq)
+//@   loop 4 invariant mono: updated ==> calls(DeepEq) >= 1 && first(DeepEq)
+//@   loop 5 invariant mono: updated ==> calls(DeepEq) >= 1 && first(DeepEq)
+//@   at call DeepEqual#1 assert masked: oldBackCopy.Name == pair.old.Name && oldBackCopy.Namespace == pair.old.Namespace && oldBackCopy.Port == pair.old.Port
+//@       && oldBackCopy.Paths == pair.old.Paths && oldBackCopy.Cookie == pair.old.Cookie && oldBackCopy.Resolver == pair.old.Resolver
+//@       && oldBackCopy.ModeTCP == pair.old.ModeTCP && oldBackCopy.BalanceAlgorithm == pair.old.BalanceAlgorithm && oldBackCopy.CustomConfig == pair.old.CustomConfig
+//@       && oldBackCopy.ID == pair.cur.ID && oldBackCopy.Endpoints == pair.cur.Endpoints
+//@ end
+
+// the scans: accepted only if every pair was accepted
+//@ func (*dynUpdater).frontendUpdated
+//@   props C02
+//@   ensures pairs: result ==> alltrue(CHP)
+//@   loop 3 invariant mono: updated ==> alltrue(CHP)
+//@ end
+
+//@ func (*dynUpdater).backendUpdated
+//@   props C02
+//@   ensures pairs: result ==> alltrue(CBP)
+//@   loop 3 invariant mono: updated ==> alltrue(CBP)
+//@ end
+
+// a certificate is reported as updated only if both commands were sent
+// without error and the commit was answered with Success
+//@ func (*dynUpdater).execUpdateCert
+//@   props C02 C15
+//@   ensures ok: result ==> calls(ExecCmd) == 1 && last(ExecCmd).1 == nil && calls(RespOK) == 1 && last(RespOK)
+//@   at call execCommand#1 assert two: len($arg2) == 2
+//@   at call cmdResponseOK#1 assert commit: $arg0 == "commit ssl cert" && $arg1 == msg[1]
 //@ end
